@@ -569,3 +569,89 @@ func ruleR07m(c *Ctx) {
 	})
 	c.floor("R07m", "definitions of the template's soydoc in Registry.Add", 2, n)
 }
+
+// R07n: the parser keeps what it parsed: every value parseTernary returns is a TernNode built from the
+// condition and both branches (or the result of parsing a further ternary on top of it). A parser that
+// returns one branch alone has dropped the other before the data-reference check (and every other pass)
+// sees it: references there are neither checked nor counted as uses.
+func ruleR07n(c *Ctx) {
+	p := c.pkg("parse")
+	fd := c.mustFunc("parse", "tree.parseTernary")
+	if p == nil || fd == nil {
+		return
+	}
+	info := p.TypesInfo
+	self, _ := info.Defs[fd.Name].(*types.Func)
+	isTernLit := func(e ast.Expr) bool {
+		e = ast.Unparen(e)
+		if ue, ok := e.(*ast.UnaryExpr); ok && ue.Op == token.AND {
+			e = ue.X
+		}
+		cl, ok := e.(*ast.CompositeLit)
+		if !ok {
+			return false
+		}
+		tv, ok := info.Types[cl]
+		if !ok {
+			return false
+		}
+		_, tn, ok := relPkgOfType(tv.Type)
+		return ok && tn == "TernNode" && len(cl.Elts) >= 3
+	}
+	var okValue func(e ast.Expr, depth int) bool
+	okValue = func(e ast.Expr, depth int) bool {
+		e = ast.Unparen(e)
+		if isTernLit(e) {
+			return true
+		}
+		if call, ok := e.(*ast.CallExpr); ok && calleeFunc(call, info) == self {
+			return len(call.Args) == 1 && okValue(call.Args[0], depth+1)
+		}
+		if id, ok := e.(*ast.Ident); ok && depth < 3 {
+			obj := info.Uses[id]
+			defs, good := 0, 0
+			ast.Inspect(fd.Body, func(x ast.Node) bool {
+				var lhs, rhs []ast.Expr
+				switch s := x.(type) {
+				case *ast.AssignStmt:
+					lhs, rhs = s.Lhs, s.Rhs
+				case *ast.ValueSpec:
+					for _, nm := range s.Names {
+						lhs = append(lhs, nm)
+					}
+					rhs = s.Values
+				default:
+					return true
+				}
+				if len(lhs) != len(rhs) {
+					return true
+				}
+				for i, l := range lhs {
+					li, ok := l.(*ast.Ident)
+					if !ok || (info.Defs[li] != obj && info.Uses[li] != obj) {
+						continue
+					}
+					defs++
+					if okValue(rhs[i], depth+1) {
+						good++
+					}
+				}
+				return true
+			})
+			return defs > 0 && defs == good
+		}
+		return false
+	}
+	n := 0
+	ast.Inspect(fd.Body, func(x ast.Node) bool {
+		r, ok := x.(*ast.ReturnStmt)
+		if !ok || len(r.Results) != 1 {
+			return true
+		}
+		n++
+		c.check(okValue(r.Results[0], 0), "R07n", "parse.tree.parseTernary returns#"+itoa(n), r.Pos(), "returns the ternary node built from the condition and both branches",
+			"parseTernary can return "+exprKey(r.Results[0])+", which is not always the ternary node holding the condition and both branches: a branch dropped by the parser is invisible to the data-reference check, so references in it are neither checked nor counted")
+		return true
+	})
+	c.floor("R07n", "returns of parseTernary", 2, n)
+}
